@@ -15,7 +15,9 @@ import shutil
 import signal
 import socket
 import subprocess
+import struct
 import tempfile
+import threading
 import time
 
 from .. import pipeline, sx
@@ -25,7 +27,9 @@ HARNESS_BIN = None
 RUN_MODULE = 'Run.C20'
 REPO_BINS = ['sccache']
 THEOREMS = ['C20_tcp_singleton', 'C20_abstract_singleton', 'C20_uds_singleton', 'C20_uds_unlocked_refuted',
-            'C20_uds_retry_needs_timing', 'C20_startup_terminates', 'C20_idle_not_before', 'C20_idle_exact', 'C20_stop_waits']
+            'C20_uds_retry_needs_timing', 'C20_startup_terminates', 'C20_idle_not_before', 'C20_idle_exact', 'C20_stop_waits',
+            'C20_started_server_report_proceeds', 'C20_late_client_cold_starts', 'C20_not_serving_refuses',
+            'C20_cut_connection_falls_back']
 ASSUMPTIONS = [
     'kernel semantics as stated in Model/Startup.v: bind on a TCP port / abstract socket name is exclusive and the name is released when its owner exits; bind on a socket PATH fails iff the directory entry exists; unlink removes the entry but not the listening socket behind it; flock is exclusive and released at process exit',
     'bind+listen of one listener, and each of connect / unlink / flock / the start-up notification, are atomic steps',
@@ -38,6 +42,10 @@ TRUSTED = ['e2e driver lib/props/c20.py: log-line -> event mapping and the merge
            '/proc scan for live (non-zombie) server processes carrying the run\'s unique SCCACHE_DIR']
 
 LOGSPEC = 'sccache=trace'
+
+# spellings of ONE Unix socket (relative to the run's scratch directory)
+SPELLINGS = {'plain': 's.sock', 'symlink': 'run/current/s.sock', 'dotdot': 'run/other/../real/s.sock',
+             'dslash': 'run//real/./s.sock'}
 
 
 def legs(tier):
@@ -163,8 +171,9 @@ def free_port():
 class World:
     """One scratch directory = one address + one cache dir."""
 
-    def __init__(self, kind, idle_s=120, tag='r'):
+    def __init__(self, kind, idle_s=120, tag='r', spelling=None):
         self.kind = kind
+        self.rel = None
         self.base = tempfile.mkdtemp(prefix='c20%s-' % tag, dir=scratch_root())
         self.cache = os.path.join(self.base, 'cache')
         os.makedirs(self.cache)
@@ -178,7 +187,13 @@ class World:
         if kind == 'tcp':
             self.env['SCCACHE_SERVER_PORT'] = str(free_port())
         elif kind == 'uds':
-            self.env['SCCACHE_SERVER_UDS'] = os.path.join(self.base, 's.sock')
+            # one socket, spelled the way users do: plainly, through a symlinked directory, with a `..`, with `//`
+            rel = SPELLINGS[spelling or 'plain']
+            os.makedirs(os.path.join(self.base, 'run', 'real'))
+            os.makedirs(os.path.join(self.base, 'run', 'other'))
+            os.symlink('real', os.path.join(self.base, 'run', 'current'))
+            self.rel = rel
+            self.env['SCCACHE_SERVER_UDS'] = self.base + '/' + rel
         elif kind == 'abstract':
             self.env['SCCACHE_SERVER_UDS'] = '\\x00c20-' + os.path.basename(self.base)
         else:
@@ -218,12 +233,24 @@ def make_slow_cc(base):
     return p
 
 
+def make_slow_detect_cc(base, delay):
+    """A wrapper around gcc whose FIRST invocation (the server's compiler detection) sleeps: the request that brings a
+    new compiler is answered (CompileStarted) only after `delay` seconds."""
+    p = os.path.join(base, 'slowdetect')
+    mark = os.path.join(base, 'slowdetect.mark')
+    open(p, 'w').write('#!/bin/sh\n'
+                       'if [ ! -e "%s" ]; then : > "%s"; sleep %s; fi\n'
+                       'exec gcc "$@"\n' % (mark, mark, delay))
+    os.chmod(p, 0o755)
+    return p
+
+
 # ------------------------------------------------------------------ the race
 
-def run_race(binp, kind, k, stale=False, timeout=150):
+def run_race(binp, kind, k, stale=False, timeout=150, spelling=None):
     """k clients released together against a fresh address.  Returns the observation dict."""
-    w = World(kind)
-    obs = {'kind': kind, 'k': k, 'stale': stale}
+    w = World(kind, spelling=spelling)
+    obs = {'kind': kind, 'k': k, 'stale': stale, 'spelling': spelling, 'rel': w.rel}
     try:
         if stale and kind == 'uds':
             s = socket.socket(socket.AF_UNIX)
@@ -332,6 +359,10 @@ def client_labels(log):
             elif phase == 'retry':
                 ev += [6] * max(0, attempts_pending - 1) + [1]
                 phase = 'done'
+            continue
+        if 'Listening on address' in ln and 'instead of' in ln and phase == 'wait':
+            ev.append(9)             # the spawned server reported another address than the one asked for: bail
+            phase = 'failed'
             continue
         if 'Timed out waiting for server startup' in ln and phase == 'wait':
             ev.append(8)
@@ -477,6 +508,8 @@ def observed_end(obs, cseq):
             finals.append('fail-timeout')
         elif 7 in cseq[i]:
             finals.append('fail-retry')
+        elif 9 in cseq[i]:
+            finals.append('fail-wrong-address')
         else:
             finals.append('bad')
     return holder, finals
@@ -513,12 +546,14 @@ def classify_race(obs, v):
     return None
 
 
-def do_race(rep, known, binp, kind, k, stale=False):
+def do_race(rep, known, binp, kind, k, stale=False, spelling=None):
     consts = rep.consts
-    obs = run_race(binp, kind, k, stale)
+    obs = run_race(binp, kind, k, stale, spelling=spelling)
     # the model variant is chosen from the SOURCE: without the lock call the faithful model is uds_nolock
     mkind = 'uds_nolock' if (kind == 'uds' and not consts.get('uds_locked', True)) else kind
     case, stuck, cseq, sseq, cphase = race_case(obs, consts, mkind)
+    if spelling:
+        case.append(spelling.encode())
     holder, finals = observed_end(obs, cseq)
     rep.evaluations += 1
     rep.count('race.kind=%s' % kind)
@@ -530,7 +565,7 @@ def do_race(rep, known, binp, kind, k, stale=False):
         rep.distinct.add('race:%s:%d:%s' % (kind, k, sx.dumps(case)))
     vs = race_monitor(obs, finals)
     for v in vs[:3]:
-        rep.violation('property', 'race', case, '%s, k=%d%s: %s' % (kind, k, ', stale socket' if stale else '', v))
+        rep.violation('property', 'race', case, '%s%s, k=%d%s: %s' % (kind, ' spelled <dir>/%s' % obs['rel'] if spelling else '', k, ', stale socket' if stale else '', v))
     mout = pipeline.parse_out(model_run('race', [case])[0])
     ok = True
     detail = ''
@@ -561,6 +596,19 @@ def do_race(rep, known, binp, kind, k, stale=False):
             if holder and done_to - set(holder):
                 ok = False
                 detail = 'model: clients connected to %s, holder is %s' % (sorted(done_to), holder)
+    if kind == 'uds' and obs.get('rel'):
+        # leg "report": the model's verdict for the client whose server bound this spelling vs what that client did
+        rcase = [b'path', obs['rel'].encode()]
+        m_rep = model_run('report', [rcase])[0].strip()
+        spawners = [i for i in range(k) if sseq[i] and 10 in sseq[i]]
+        o_rep = 'bails' if any(9 in cseq[i] for i in spawners) else 'proceeds'
+        rep.evaluations += 1
+        rep.count('report.spelling=%s' % (spelling or 'plain'))
+        if m_rep != o_rep and not vs:
+            ok = False
+            detail = 'spelling <dir>/%s: the model says the client that started the server %s, the real one %s' % (obs['rel'], m_rep, o_rep)
+        if spelling:
+            rep.distinct.add('report:%s:%d' % (spelling, k))
     if ok:
         rep.traces += 1
     elif not vs:
@@ -573,8 +621,8 @@ def do_race(rep, known, binp, kind, k, stale=False):
     L['events'] += len(case[4])
     if len(rep.samples) < 6 and nspawn > 1:
         rep.samples.append({'leg': 'race', 'case': sx.dumps(case)[:1500], 'observed': {'live_servers': holder, 'clients': finals, 'wall_s': obs.get('wall_s')}})
-    pipeline.log('race %-8s k=%-2d: %d servers spawned, live %s, clients %s, trace %s (%d events), %.1fs'
-                 % (kind, k, nspawn, holder, 'all ok' if all(f == 'done' for f in finals) else finals,
+    pipeline.log('race %-8s k=%-2d%s: %d servers spawned, live %s, clients %s, trace %s (%d events), %.1fs'
+                 % (kind, k, ' (%s)' % spelling if spelling else '', nspawn, holder, 'all ok' if all(f == 'done' for f in finals) else finals,
                     'accepted' if ok else 'NOT accepted', len(case[4]), obs.get('wall_s', 0)))
     return ok and not vs, obs, case
 
@@ -619,7 +667,7 @@ def ms(t):
     return int(round(t * 1000))
 
 
-def life_check(rep, name, case, observed, vs):
+def life_check(rep, name, case, observed, vs, arrivals=None):
     """Feed the observed event times to Model/ServerLife.v; the model's verdict must be the observed one."""
     mout = pipeline.parse_out(model_run('life', [case])[0])
     rep.evaluations += 1
@@ -629,6 +677,12 @@ def life_check(rep, name, case, observed, vs):
            mout[3].decode() if len(mout) > 3 and isinstance(mout[3], bytes) else '?',
            len(mout[5]) if len(mout) > 5 else -1]
     ok = got == observed
+    if arrivals is not None and ok:
+        m_arr = [[a[0], a[1]] for a in (mout[7] if len(mout) > 7 else [])]
+        if m_arr != arrivals:
+            ok = False
+            got = got + ['arrivals %s' % m_arr]
+            observed = observed + ['arrivals %s' % arrivals]
     for v in vs:
         rep.violation('property', 'life', case, name + ': ' + v)
     if not ok and not vs:
@@ -681,7 +735,7 @@ def life_idle(rep, binp, kind, T):
         w.close()
 
 
-def life_stop(rep, binp, kind, delay, cap_expected=False):
+def life_stop(rep, binp, kind, delay, cap_expected=False, late_client=False):
     """A stop request while a compile is in flight: the compile finishes (or, beyond the cap, its client falls back),
     the stop client gets its answer, and the server terminates."""
     w = World(kind, idle_s=0, tag='s')
@@ -699,10 +753,26 @@ def life_stop(rep, binp, kind, delay, cap_expected=False):
         env = dict(w.env, SCCACHE_LOG='off')
         st = subprocess.run([binp, '--stop-server'], env=env, stdout=subprocess.PIPE, stderr=subprocess.PIPE, timeout=60)
         t_stopped = time.time()
-        alive_after_stop = bool(live_servers(w.cache))
+        old_pids = set(live_servers(w.cache))
+        alive_after_stop = bool(old_pids)
+        # a client that ARRIVES now, while the in-flight compile finishes: the stopped server no longer owns the address
+        late = None
+        if late_client:
+            t_b = time.time()
+            pb = compile_once(binp, w, 2)
+            blog = open(os.path.join(w.client_dir(2), 'client.log'), errors='replace').read()
+            late = {'rc': pb.returncode, 'obj': obj_ok(w, 2), 'cold_started': 'run_server_process' in blog,
+                    'during_drain': bool(old_pids) and t_b < t_req + delay - 0.7,
+                    'err': blog.strip().split('\n')[-1][:200]}
         out1, _ = p1.communicate(timeout=delay + 120)
         t_c1 = time.time()
-        t_exit = wait_gone(w.cache, cap + 60)
+        t_exit = None
+        t_w = time.time()
+        while time.time() - t_w < cap + 60:
+            if not (old_pids & set(live_servers(w.cache))):
+                t_exit = time.time()
+                break
+            time.sleep(0.02)
         slog = open(os.path.join(w.base, 'server.log'), errors='replace').read() if os.path.exists(os.path.join(w.base, 'server.log')) else ''
         if st.returncode != 0:
             vs.append('--stop-server failed: rc %d %s' % (st.returncode, st.stderr.decode('utf-8', 'replace')[-200:]))
@@ -728,16 +798,46 @@ def life_stop(rep, binp, kind, delay, cap_expected=False):
                 vs.append('the server exited %.2f s after the stop request was SENT with a request in flight, before the %d s cap' % (t_exit - t_stop, cap))
             if clean:
                 vs.append('the server claims a clean shutdown although a request was still in flight at the cap')
+        arrivals = []
+        if late and late['during_drain']:
+            # the model: an arrival during the shutdown phase is refused, so the client cold-starts a fresh server
+            arrivals = [[b'connect', 3]]
+            rep.count('life.late_client.%s' % kind)
+            known_uds = kind == 'uds' and late['rc'] != 0 and late['cold_started'] and 'timed out' in late['err'].lower()
+            if known_uds:
+                # finding C20-S21 (Unix socket path only): the draining server still holds <path>.lock
+                late['known'] = True
+                line = ('KNOWN-FINDING: property=C20 a client arriving while a stopped Unix-socket server finishes its in-flight '
+                        'compile fails: the fresh server it spawns gets AddrInUse from the lock the old one holds until exit [C20-S21]')
+                if any(k.get('id') == 'C20-S21' for k in getattr(rep, 'known_c20', [])):
+                    rep.known_hits['C20-S21'] = rep.known_hits.get('C20-S21', 0) + 1
+                    if line not in rep.known_lines:
+                        rep.known_lines.append(line)
+                else:
+                    rep.notes.append('C20-S21 reproduced (not yet in KNOWN_FINDINGS.json): ' + late['err'])
+            else:
+                if late['rc'] != 0 or not late['obj']:
+                    vs.append('a client that arrived %.1f s after the stop request was answered, while the in-flight compile was still '
+                              'running, failed (rc %s, object %s): %s' % (t_b - t_stopped, late['rc'], 'ok' if late['obj'] else 'missing/different', late['err']))
+                elif not late['cold_started']:
+                    vs.append('a client that arrived during the shutdown phase was accepted by the stopped server instead of being refused')
+                else:
+                    fresh = set(live_servers(w.cache)) - old_pids
+                    if len(fresh) != 1:
+                        vs.append('%d fresh servers serve the address after the late client (expected exactly 1)' % len(fresh))
         if cap_expected:
             evs = [[b'accept', 1], [b'request', 1], [b'poll'], [b'tick', ms(t_stop - t_req)],
                    [b'accept', 2], [b'stop', 2], [b'poll'], [b'finish', 2], [b'close', 2], [b'wake'],
                    [b'tick', ms(t_exit - t_stop)], [b'wake']]
         else:
             evs = [[b'accept', 1], [b'request', 1], [b'poll'], [b'tick', ms(t_stop - t_req)],
-                   [b'accept', 2], [b'stop', 2], [b'poll'], [b'finish', 2], [b'close', 2], [b'wake'],
+                   [b'accept', 2], [b'stop', 2], [b'poll'], [b'finish', 2], [b'close', 2], [b'wake']] + arrivals + [
                    [b'tick', ms(max(0, t_c1 - t_stop))], [b'finish', 1], [b'close', 1], [b'wake']]
         case = [0, cap * 1000, evs]
-        life_check(rep, 'stop-%s-inflight%ds' % (kind, delay), case, observed, vs)
+        arr_obs = None
+        if arrivals:
+            arr_obs = [[3, 0 if (late['cold_started'] or late.get('known')) else 1]]
+        life_check(rep, 'stop-%s-inflight%ds%s' % (kind, delay, '-late-client' if arrivals else ''), case, observed, vs, arr_obs)
     finally:
         w.close()
 
@@ -782,6 +882,144 @@ def life_idle_inflight(rep, binp, kind, T, delay):
         w.close()
 
 
+def life_idle_late(binp, consts, kind, T, detect):
+    """The failing timing of "idle period counted from the answer instead of from receipt": the last request arrives
+    shortly before the running idle deadline and is answered only after it (slow compiler detection).  One-sided and
+    load-tolerant: the server must not be gone before <send time> + T.  Returns the arguments of life_check."""
+    w = World(kind, idle_s=T, tag='l')
+    vs = []
+    cap = consts['cap_s']
+    try:
+        slow = make_slow_detect_cc(w.base, detect)
+        env = dict(w.env, SCCACHE_LOG='off', SCCACHE_ERROR_LOG=os.path.join(w.base, 'server.log'))
+        t0 = time.time()                        # before the server exists: its first deadline is >= t0 + T
+        st = subprocess.run([binp, '--start-server'], env=env, stdout=subprocess.PIPE, stderr=subprocess.PIPE, timeout=90)
+        if st.returncode != 0:
+            vs.append('--start-server failed: ' + st.stderr.decode('utf-8', 'replace')[-200:])
+        time.sleep(max(0.0, t0 + T - 1.5 - time.time()))
+        t_req = time.time()                     # before the request is sent
+        p1 = compile_once(binp, w, 1, cc=slow)
+        t_c1 = time.time()
+        if p1.returncode != 0 or not obj_ok(w, 1):
+            vs.append('the late request did not complete correctly (rc %s)' % p1.returncode)
+        t_exit = wait_gone(w.cache, T + cap + 60)
+        if t_exit is None:
+            vs.append('the idle server is still running %d s after its last request' % (T + cap + 60))
+            observed = ['serving', 'none', 0]
+            t_exit = time.time()
+        else:
+            observed = ['terminated', 'idle', 0]
+            if t_exit - t_req < T:
+                vs.append('the server was gone %.2f s after its last request was SENT (that request arrived %.1f s before the '
+                          'running idle deadline and took %.1f s to answer): before the idle period of %d s counted from receipt'
+                          % (t_exit - t_req, max(0.0, t0 + T - t_req), t_c1 - t_req, T))
+        case = [T * 1000, cap * 1000,
+                [[b'tick', ms(t_req - t0)], [b'accept', 1], [b'request', 1], [b'poll'],
+                 [b'tick', ms(t_c1 - t_req)], [b'poll'], [b'finish', 1], [b'close', 1],
+                 [b'tick', ms(max(0, t_exit - t_c1))], [b'poll'], [b'wake']]]
+        return ('idle-late-request-%s-T%d-D%d' % (kind, T, detect), case, observed, vs)
+    finally:
+        w.close()
+
+
+# ------------------------------------------------------------------ connections cut INSIDE a frame (leg "cut")
+
+def bincode_started():
+    return struct.pack('<II', 0, 0)             # Response::Compile(CompileResponse::CompileStarted)
+
+
+def bincode_finished(rc, nerr):
+    return (struct.pack('<I', 5) + b'\x01' + struct.pack('<i', rc) + b'\x00' + struct.pack('<Q', 0)
+            + struct.pack('<Q', nerr) + b'w' * nerr + struct.pack('<I', 2))
+
+
+def wire_frame(payload):
+    return struct.pack('>I', len(payload)) + payload
+
+
+def cut_server(sock, cut, rc, nerr):
+    """Plays a server whose process ends while it writes the result: CompileStarted, then `cut` bytes of the
+    CompileFinished frame, then the connection is closed."""
+    def rd(c, n):
+        b = b''
+        while len(b) < n:
+            x = c.recv(n - len(b))
+            if not x:
+                raise EOFError
+            b += x
+        return b
+    try:
+        c, _ = sock.accept()
+        c.settimeout(30)
+        (n,) = struct.unpack('>I', rd(c, 4))
+        rd(c, n)
+        c.sendall(wire_frame(bincode_started()))
+        c.sendall(wire_frame(bincode_finished(rc, nerr))[:cut])
+        try:
+            c.shutdown(socket.SHUT_RDWR)
+        except OSError:
+            pass
+        c.close()
+    except Exception:
+        pass
+    finally:
+        sock.close()
+
+
+def do_cut(rep, binp, cut, rc=0, nerr=1216):
+    base = tempfile.mkdtemp(prefix='c20c-', dir=scratch_root())
+    try:
+        srv = socket.socket()
+        srv.bind(('127.0.0.1', 0))
+        srv.listen(1)
+        srv.settimeout(30)
+        port = srv.getsockname()[1]
+        th = threading.Thread(target=cut_server, args=(srv, cut, rc, nerr), daemon=True)
+        th.start()
+        d = os.path.join(base, 'c')
+        os.makedirs(d)
+        write_source(d, 7)
+        reference_object(d)
+        env = {'PATH': os.environ.get('PATH', '/usr/bin:/bin'), 'HOME': base, 'TMPDIR': base, 'LC_ALL': 'C',
+               'SCCACHE_SERVER_PORT': str(port), 'SCCACHE_DIR': os.path.join(base, 'cache'), 'SCCACHE_LOG': 'off'}
+        p = subprocess.run([binp, 'gcc', '-c', 'x.c', '-o', 'x.o'], cwd=d, env=env, stdin=subprocess.DEVNULL,
+                           stdout=subprocess.PIPE, stderr=subprocess.PIPE, timeout=60)
+        th.join(5)
+        have_obj = os.path.exists(os.path.join(d, 'x.o'))
+        same = have_obj and open(os.path.join(d, 'x.o'), 'rb').read() == open(os.path.join(d, 'ref.o'), 'rb').read()
+        if p.returncode == 0 and same:
+            o = ['local']
+        elif not have_obj and b'w' * 64 in p.stderr and p.returncode == rc:
+            o = ['finished', rc]
+        else:
+            o = ['error']
+        flen = len(wire_frame(bincode_finished(rc, nerr)))
+        case = [cut, rc, nerr]
+        mout = pipeline.parse_out(model_run('cut', [case])[0])
+        m = [x.decode() if isinstance(x, bytes) else x for x in mout[0]] if mout and isinstance(mout[0], list) else ['?']
+        rep.evaluations += 1
+        where = 'boundary' if cut == 0 else 'in-header' if cut < 4 else 'after-header' if cut == 4 else 'whole' if cut >= flen else 'in-payload'
+        rep.count('cut.' + where)
+        rep.distinct.add('cut:%d' % cut)
+        rep.legs.setdefault('cut', {'runs': 0, 'agree': 0})
+        rep.legs['cut']['runs'] += 1
+        if cut < flen and o != ['local']:
+            rep.violation('property', 'cut', case,
+                          'the server went away after %d of %d bytes of the CompileFinished frame (%s): the client did not fall back to a '
+                          'correct local compile (rc %d, object %s): %s'
+                          % (cut, flen, where, p.returncode, 'identical' if same else 'missing/different',
+                             p.stderr.decode('utf-8', 'replace').strip().replace('\n', ' | ')[-300:]))
+        elif m != o or (len(mout) > 1 and mout[1] != flen):
+            rep.violation('correspondence', 'cut', case, 'cut at %d: model %s (frame %s bytes), client %s (frame %d bytes)'
+                          % (cut, m, mout[1] if len(mout) > 1 else '?', o, flen))
+        else:
+            rep.legs['cut']['agree'] += 1
+            rep.traces += 1
+        return m, o
+    finally:
+        shutil.rmtree(base, ignore_errors=True)
+
+
 # ------------------------------------------------------------------ model-only witnesses (sched leg)
 
 def sched_witnesses(rep):
@@ -823,6 +1061,22 @@ def extra(rep, known):
                 bad.append('recorded trace: ' + sx.dumps(o)[:200])
         rep.oblige('corpus: recorded real traces (pre-fix S11 run under uds_nolock, post-fix runs)', not bad, '; '.join(bad) or '%d traces' % len(corpus))
         rep.evaluations += len(corpus)
+    # witnesses of the seam behaviours (late request, arrival during shutdown, cut inside a frame, spellings):
+    # ( case expected-model-output ) pairs
+    bad = []
+    npairs = 0
+    for leg in ('life', 'cut', 'report'):
+        pairs = pipeline.corpus_cases(ID, leg)
+        if not pairs:
+            continue
+        outs = model_run(leg, [pr[0] for pr in pairs])
+        for pr, o in zip(pairs, outs):
+            npairs += 1
+            if o.strip() != sx.dumps(pr[1]):
+                bad.append('%s %s: model now says %s' % (leg, sx.dumps(pr[0])[:120], o.strip()[:160]))
+    rep.oblige('corpus: late request / arrival during shutdown / cut inside a frame / socket spellings (model answers pinned)',
+               not bad, '; '.join(bad[:4]) or '%d witnesses' % npairs)
+    rep.evaluations += npairs
     ks = [2, 4, 8, 16, 32]
     if rep.tier == 'thorough':
         plan = [(kind, k, False) for rnd in range(3) for kind in ('tcp', 'uds', 'abstract') for k in ks]
@@ -830,18 +1084,48 @@ def extra(rep, known):
     else:
         plan = [(kind, k, False) for rnd in range(2) for kind in ('uds', 'tcp', 'abstract') for k in ks]
         plan += [('uds', 8, True), ('uds', 32, True)]
-    for kind, k, stale in plan:
-        ok, obs, case = do_race(rep, known, binp, kind, k, stale)
+    plan = [p + (None,) for p in plan]
+    # the same socket under other spellings: one client (it is the one that starts the server), and races
+    spell = [('uds', 1, False, 'symlink'), ('uds', 1, False, 'dotdot'), ('uds', 4, False, 'dotdot'), ('uds', 8, False, 'symlink'),
+             ('uds', 2, False, 'dslash'), ('uds', 4, True, 'symlink')]
+    if rep.tier == 'thorough':
+        spell += [('uds', k, False, sp) for sp in ('symlink', 'dotdot', 'dslash') for k in (16, 32)]
+    # the late-request idle leg takes T + (T - 1.5) seconds of waiting: run it beside the races
+    late_box = {}
+
+    def run_late():
+        try:
+            late_box['r'] = life_idle_late(binp, rep.consts, 'tcp', 6, 4)
+        except Exception as e:      # reported below
+            late_box['e'] = repr(e)
+    late_thread = threading.Thread(target=run_late, daemon=True)
+    late_thread.start()
+    for kind, k, stale, sp in spell + plan:
+        ok, obs, case = do_race(rep, known, binp, kind, k, stale, spelling=sp)
         if not ok and rep.tier == 'quick' and sum(1 for v in rep.violations) >= 3:
             break
+    rep.rule.append('report: the same cold starts with the Unix socket spelled through a symlinked directory, with `..`, with `//` '
+                    'and `.` (1 client = the one that starts the server, and races); the model says the spawner proceeds')
+    # connections cut on a frame boundary, inside the length header, right after it, inside the payload
+    flen = len(wire_frame(bincode_finished(0, 1216)))
+    for cut in [0, 2, 4, 5, 30, flen - 1, flen] + ([1, 3, 17, 600, flen - 5] if rep.tier == 'thorough' else []):
+        do_cut(rep, binp, cut)
+    rep.rule.append('cut: a stand-in server answers CompileStarted and closes after k bytes of the CompileFinished frame, k on the '
+                    'boundary / in the header / after the header / in the payload / whole frame; real client vs Model.Client.client')
     rep.rule.append('race: k in {2,4,8,16,32} real clients x {tcp, unix path, abstract} (+ stale socket file), released by one open() of a '
                     'FIFO; non-trivial = more than one server process was spawned; distinct by the full merged event trace')
     # life cycle
+    rep.known_c20 = known
     life_idle(rep, binp, 'uds', 2)
-    life_stop(rep, binp, 'tcp', 3)
+    life_stop(rep, binp, 'tcp', 3, late_client=True)
+    late_thread.join(120)
+    if 'r' in late_box:
+        life_check(rep, *late_box['r'])
+    else:
+        rep.oblige('life: late-request idle leg ran', False, late_box.get('e', 'did not finish within 120 s'))
     if rep.tier == 'thorough':
         life_idle(rep, binp, 'tcp', 3)
-        life_stop(rep, binp, 'uds', 4)
+        life_stop(rep, binp, 'uds', 4, late_client=True)
         life_stop(rep, binp, 'abstract', rep.consts['cap_s'] + 5, cap_expected=True)
         life_idle_inflight(rep, binp, 'tcp', 2, 6)
     rep.rule.append('life: idle expiry and stop-with-request-in-flight against the real server; the extracted ServerLife model must '
@@ -866,18 +1150,42 @@ def check(tier, seed, replay=None):
     leg = data.get('leg', 'race')
     print('case:  ', data['case'][:2000])
     if okm:
-        print('model: ', model_run(leg if leg in ('race', 'life', 'sched') else 'race', [case])[0][:2000])
+        print('model: ', model_run(leg if leg in ('race', 'life', 'sched', 'cut', 'report') else 'race', [case])[0][:2000])
     bad = False
     if leg == 'race' and rep.bin_ok:
         kind = case[0].decode().replace('uds_nolock', 'uds')
         for attempt in range(5):
-            okr, obs, c2 = do_race(rep, [], pipeline.repo_bin('sccache'), kind, case[2], bool(case[3]))
+            okr, obs, c2 = do_race(rep, [], pipeline.repo_bin('sccache'), kind, case[2], bool(case[3]),
+                                   spelling=case[5].decode() if len(case) > 5 else None)
             if not okr:
                 bad = True
                 print('impl:   attempt %d: live servers %s; %s' % (attempt + 1, obs['live_servers'], [v['detail'] for v in rep.violations][:3]))
                 break
         if not bad:
             print('impl:   5 attempts, no violation')
+    if leg == 'cut' and rep.bin_ok:
+        m, o = do_cut(rep, pipeline.repo_bin('sccache'), case[0], case[1], case[2])
+        print('impl:   cut at %d: model %s, real client %s' % (case[0], m, o))
+        bad = bool(rep.violations)
+    if leg == 'life' and rep.bin_ok:
+        # the scenario is named in front of the recorded failure text: <scenario>: <what failed>
+        name = (data.get('what_fails') or data.get('disagreements', [{}])[0].get('detail', '')).split(':')[0]
+        binp = pipeline.repo_bin('sccache')
+        rep.known_c20 = pipeline.load_known(ID)
+        m = re.match(r'(idle-late-request|idle-inflight|idle|stop)-(tcp|uds|abstract)-?(.*)$', name)
+        if m:
+            what, kind, rest = m.groups()
+            nums = [int(x) for x in re.findall(r'\d+', rest)]
+            if what == 'idle-late-request':
+                life_check(rep, *life_idle_late(binp, rep.consts, kind, nums[0], nums[1]))
+            elif what == 'idle-inflight':
+                life_idle_inflight(rep, binp, kind, nums[0], nums[1])
+            elif what == 'idle':
+                life_idle(rep, binp, kind, nums[0])
+            else:
+                life_stop(rep, binp, kind, nums[0], cap_expected=nums[0] > rep.consts['cap_s'], late_client='late-client' in rest)
+            bad = bool(rep.violations)
+            print('impl:   %s: %s' % (name, [v['detail'] for v in rep.violations][:2] or 'no violation'))
     if bad:
         print('VIOLATION property=%s replay=%s' % (ID, replay))
         return 1
